@@ -13,7 +13,7 @@ import tempfile
 
 from mc.build import im as IM
 from mc.build import ti as TI
-from mc.core.util import call
+from mc.core.util import call, exc_name
 
 ID = "C16"
 LEVEL = "exploration"
@@ -96,7 +96,7 @@ def reference_digest(size, algo):
     except TypeError:
         return ["variable-length"]
     except Exception as exc:                                           # noqa
-        return ["unavailable", type(exc).__name__]
+        return ["unavailable", exc_name(exc)]
 
 
 def norm(path):
